@@ -479,7 +479,7 @@ CONTRACTS = [
                        "g_failed_printed", "g_skipped_printed"],
              ensures=[C("exit_zero_only_if_everything_that_ran_succeeded", "all(succeeded(o) for o in self._completed_ops)", "C03"),
                       C("operations_consistent", "ops_inv()", "C01", "C03")],
-             raises={"ConductorAbort": [],
+             raises={"ConductorAbort": [C("every_running_task_group_was_signalled", "forall(p, 'int', implies(p in self._inflight_ops._processes and self._inflight_ops._processes[p][0].pid is not None, Pgid(some(self._inflight_ops._processes[p][0].pid)) in g_killed or Gone(some(self._inflight_ops._processes[p][0].pid)) or Pgid(some(self._inflight_ops._processes[p][0].pid)) < 0))", "C16")],
                      "OSError": [],
                      "ConductorError+": [C("some_task_failed", "any(o._state == OperationState.FAILED for o in self._completed_ops)", "C03"),
                                          C("running_tasks_signalled",
@@ -501,6 +501,10 @@ CONTRACTS = [
                                        C("no_failure_seen_in_stop_mode", "implies(g_stop_mode, not g_failure_seen)", "C03"),
                                        C("stop_mode_fixed", "g_stop_mode == stop_on_first_error and self._slots > 0")])},
              ghost=[
+                 # C16: the running tasks are signalled FIRST in the abort handler -- before anything that can fail (the
+                 # banner is written to a stdout that may be a closed pipe: `cond run ... | tee`, Ctrl-C)
+                 Ghost("assert forall(p, 'int', implies(p in self._inflight_ops._processes and self._inflight_ops._processes[p][0].pid is not None, Pgid(some(self._inflight_ops._processes[p][0].pid)) in g_killed or Gone(some(self._inflight_ops._processes[p][0].pid)) or Pgid(some(self._inflight_ops._processes[p][0].pid)) < 0)), 'running_task_groups_are_signalled_before_the_abort_is_reported | props=C16'",
+                       before="elapsed = time.time() - start"),
                  Ghost("use(forall(o, 'Operation', lemma('cnt_none', seq_len(o._exe_deps))))", before="self._ready_to_run.load(plan.initial_ops)"),
                  # liveness part of C09 / C03 (every planned operation has been completed when the loop ends without
                  # stop-early): not proved here -- bounded check C09.executor.terminates_every_op_one_outcome
